@@ -40,6 +40,48 @@ def pre1? (t : String) : Option Pre :=
 def pres? (t : String) : Option (List Pre) :=
   if t = "-" then some [] else (t.splitOn "+").mapM pre1?
 
+/- argument lists:  Args ::= "(" Arg* ")"   Arg ::= "l" | "c." form "." off Args | "e." off "."
+   (self-delimiting; `e` evals always use file 1, the source "1") -/
+def takeWhileC (p : Char → Bool) : List Char → List Char × List Char
+  | [] => ([], [])
+  | c :: r => if p c then let (a, b) := takeWhileC p r; (c :: a, b) else ([], c :: r)
+
+mutual
+partial def parseArg : List Char → Option (Arg × List Char)
+  | 'l' :: r => some (.lit, r)
+  | 'c' :: '.' :: r =>
+    let (fs, r) := takeWhileC (· != '.') r
+    match r with
+    | '.' :: r =>
+      let (ds, r) := takeWhileC Char.isDigit r
+      match form? (String.ofList fs), (String.ofList ds).toNat?, parseArgs r with
+      | some f, some o, some (as, r) => some (.call f o as, r)
+      | _, _, _ => none
+    | _ => none
+  | 'e' :: '.' :: r =>
+    let (ds, r) := takeWhileC Char.isDigit r
+    match (String.ofList ds).toNat?, r with
+    | some o, '.' :: r => some (.evalDirect o 1, r)
+    | _, _ => none
+  | _ => none
+partial def parseArgList : List Char → Option (Args × List Char)
+  | ')' :: r => some (.nil, r)
+  | cs => match parseArg cs with
+    | some (a, r) => match parseArgList r with
+      | some (as, r) => some (.cons a as, r)
+      | none => none
+    | none => none
+partial def parseArgs : List Char → Option (Args × List Char)
+  | '(' :: r => parseArgList r
+  | _ => none
+end
+
+def args? (t : String) : Option Args :=
+  if t = "-" then some .nil else
+  match parseArgs t.toList with
+  | some (as, []) => some as
+  | _ => none
+
 def via? (t : String) : Option Via :=
   match t.splitOn ":" with
   | ["d"] => some .direct | ["n"] => some .construct | ["b"] => some .bound | ["i"] => some .implicit
@@ -48,9 +90,9 @@ def via? (t : String) : Option Via :=
 
 def level? (t : String) : Option Level :=
   match t.splitOn "," with
-  | [v, f, n, o, p, fl] => do
-    let v ← via? v; let f ← form? f; let o ← int? o; let p ← pres? p; let fl ← fl.toNat?
-    pure { via := v, form := f, name := name? n, off := o, pre := p, file := fl }
+  | [v, f, n, o, p, fl, as] => do
+    let v ← via? v; let f ← form? f; let o ← int? o; let p ← pres? p; let fl ← fl.toNat?; let as ← args? as
+    pure { via := v, form := f, name := name? n, off := o, pre := p, file := fl, args := as }
   | _ => none
 
 def levels? (t : String) : Option (List Level) :=
